@@ -166,6 +166,7 @@ type proc struct {
 
 // Driver runs one iscp-level scenario.
 type Driver struct {
+	arena []*message.DataPoint // backing array shared by the argument slices of all writes
 	sc   *Scenario
 	rec  *Rec
 	b    *Broker
@@ -507,6 +508,7 @@ func (d *Driver) exec(st *Step, g string) {
 			})),
 			iscp.WithUpstreamClosedEventHandler(iscp.UpstreamClosedEventHandlerFunc(func(ev *iscp.UpstreamClosedEvent) {
 				d.rec.Log("UpClosed", "obj", obj, "sid", d.sid(obj), "err", ErrClass(ev.Err), "total", int(ev.State.TotalDataPoints), "lastSeq", int(ev.State.LastIssuedSequenceNumber))
+				d.b.HandlerHold("UpClosed")
 			})),
 		}
 		if st.AckTimeoutMs != 0 {
@@ -549,10 +551,18 @@ func (d *Driver) exec(st *Step, g string) {
 			d.rec.Log("Skip", "a", st.A, "obj", st.Obj)
 			return
 		}
-		pts := make([]*message.DataPoint, 0, len(st.Pts))
-		for _, p := range st.Pts {
-			pts = append(pts, MkPoint(p[0], p[1]))
+		// the points of all writes of a scenario are sub-slices of one larger batch (spare capacity behind every argument slice), as an
+		// application does that decodes a batch and hands out its parts: the library must not keep or append to the caller's slice
+		d.mu.Lock()
+		if d.arena == nil || len(d.arena)+len(st.Pts) > cap(d.arena) {
+			d.arena = make([]*message.DataPoint, 0, 4096)
 		}
+		start := len(d.arena)
+		for _, p := range st.Pts {
+			d.arena = append(d.arena, MkPoint(p[0], p[1]))
+		}
+		pts := d.arena[start:len(d.arena)]
+		d.mu.Unlock()
 		d.api(g, "Write", st.Obj, []any{"sid", d.sid(st.Obj), "id", st.ID, "pts", AbsPoints(pts)}, func() (error, []any) {
 			ctx, cancel := d.ctx(st.CtxMs)
 			defer cancel()
@@ -609,6 +619,7 @@ func (d *Driver) exec(st *Step, g string) {
 			})),
 			iscp.WithDownstreamClosedEventHandler(iscp.DownstreamClosedEventHandlerFunc(func(ev *iscp.DownstreamClosedEvent) {
 				d.rec.Log("DownClosed", "obj", obj, "sid", d.sid(obj), "err", ErrClass(ev.Err))
+				d.b.HandlerHold("DownClosed")
 			})),
 		}
 		if st.AckFlushMs > 0 {
